@@ -97,6 +97,28 @@ fn main() {
             let v = qrlew::data_type::value::Value::date_time(d(2020, 1, 2).and_hms_opt(12, 0, 0).unwrap());
             println!("member(v,b)={:?} member(v,a)={:?} premise(v,b)={:?}", oracle::member::member(&v, &b), oracle::member::member(&v, &a), oracle::member::member_premise(&v, &b));
             println!("union {:?}", a.super_union(&b).map(|t| t.to_string()));
+            let ea: qrlew::data_type::Enum = [("low", 0i64), ("high", 1)].into_iter().collect();
+            let eb: qrlew::data_type::Enum = [("off", 0i64), ("on", 1), ("auto", 2)].into_iter().collect();
+            let (ta, tb) = (DataType::Enum(ea.clone()), DataType::Enum(eb));
+            let entries: std::sync::Arc<[(String, i64)]> = ea.iter().cloned().collect();
+            let v = qrlew::data_type::value::Value::enumeration(0, entries);
+            {
+                let mut r = util::Rng::new(7);
+                let (mut n, mut codes_sub, mut real_sub) = (0, 0, 0);
+                for _ in 0..10000 {
+                    let (x, y) = (gen::types::gen_enum(&mut r), gen::types::gen_enum(&mut r));
+                    n += 1;
+                    let yc: std::collections::BTreeSet<i64> = y.iter().map(|(_, c)| *c).collect();
+                    if x.iter().all(|(_, c)| yc.contains(c)) {
+                        codes_sub += 1;
+                    }
+                    if DataType::Enum(x).is_subset_of(&DataType::Enum(y)) {
+                        real_sub += 1;
+                    }
+                }
+                println!("enum pairs {} codes-subset {} is_subset_of {}", n, codes_sub, real_sub);
+            }
+            println!("enum: A<=B {} member(v,A)={:?} premise(v,A)={:?} member(v,B)={:?}", ta.is_subset_of(&tb), oracle::member::member(&v, &ta), oracle::member::member_premise(&v, &ta), oracle::member::member(&v, &tb));
             return;
         }
         "DEBUGDET" => {
